@@ -294,7 +294,7 @@ def run(ctx, spec):
         for k in range(spec["count"]):
             algo = ["thl", "superdtl", "ext_spfs", "lca", "exh"][k % 5]
             Gn, Sn, lm = gen.random_input(rng, 6, 6, min_obj=2, min_sp=2)
-            case = {"kind": "insitu", "algo": algo, "G": Gn, "S": Sn, "leafmap": lm, "costs": gen.random_cost(rng)}
+            case = {"kind": "insitu", "algo": algo, "G": Gn, "S": Sn, "leafmap": lm, "costs": gen.tame(gen.random_cost(rng), len(lm))}
             if algo in ("superdtl", "ext_spfs"):
                 case["syn"] = gen.random_syntenies(rng, list(lm), 3, ordered=algo == "ext_spfs", consistent_p=1.0)
             insitu_case(ctx, case)
